@@ -144,3 +144,27 @@ def splitMethod (m : Bytes) : Option (Bytes × Bytes) :=
   | some i => some (m.take i, m.drop (i + 1))
 
 end Rpcx.Gw
+
+namespace Rpcx.Gw
+open Rpcx Rpcx.Gen Rpcx.Srv Rpcx.Query
+
+/-- handleJSONRPCRequest: the request built from a JSON-RPC call (`hasID` = a request, not a
+    notification), metadata from the X-RPCX-Meta header (parse errors ignored there), the
+    Authorization header, serialize type JSON; then the shared pipeline. `none` = the method name
+    has no usable dot ("must contains servicepath and method"). -/
+def jsonrpcReq (hasID : Bool) (name params mdata auth : Bytes) : Option Msg :=
+  match splitMethod name with
+  | none => none
+  | some (path, method) =>
+    let h := if hasID then baseHeader else Header.setOneway baseHeader true
+    let h := Header.setSerializeType h C.SerializeType_JSON
+    let md := if mdata.isEmpty then [] else firstWins (parseQuery mdata).1
+    let md := if auth.isEmpty then md else md.filter (fun e => e.1 != authKey) ++ [(authKey, auth)]
+    some ⟨h, path, method, md, params⟩
+
+def jsonrpc (acceptOk : Bool) (env : Env) (hasID : Bool) (name params mdata auth : Bytes) : GwOut :=
+  match jsonrpcReq hasID name params mdata auth with
+  | none => .rejected "must contains servicepath and method"
+  | some req => .served (httpOne acceptOk env req).1 (httpOne acceptOk env req).2
+
+end Rpcx.Gw
